@@ -1,20 +1,38 @@
 ---------------------------- MODULE MC_Determinism ----------------------------
-(* Design-level statement of the defect and of its repair: a builder that   *)
-(* emits the user()/group() recommends by iterating a hash set may produce   *)
-(* any permutation (the seed differs per set instance); one that iterates an *)
-(* ordered set produces one order.  Two runs of one configuration are        *)
-(* observed.  MC_Determinism_ordered.cfg must pass, _hashset.cfg must FAIL.  *)
-EXTENDS Determinism, FiniteSets, TLC, SequencesExt
+(* Design-level statement of C11 and of the ways a builder can miss it.  One *)
+(* configuration is built three times.  What may differ between the runs is   *)
+(* what the statement says must not matter: the order in which the caller     *)
+(* hands the files over, the time zone in which the same source date is       *)
+(* spelled, the (late) modification time of an input file that is newer than  *)
+(* the source date, and the per-process seed of hash containers.              *)
+(*   Design = "ordered"    sorts, reads instants, clamps: DetAction and        *)
+(*                         ClampInv hold (MC_Determinism_ordered.cfg passes)   *)
+(*            "hashset"    emits owners in hash-set iteration order            *)
+(*            "insertion"  emits directories in hand-over order                *)
+(*            "localtime"  reads a zoned date-time as wall-clock time          *)
+(*            "rawmtime"   records modification times without clamping         *)
+(* Each of the four must be refuted (the check runs all five configurations). *)
+EXTENDS Determinism, FiniteSets, Integers, TLC, SequencesExt
 CONSTANTS Owners, Design
 VARIABLES run, last
 Perms == {s \in [1..Cardinality(Owners) -> Owners] : \A i, j \in 1..Cardinality(Owners) : i # j => s[i] # s[j]}
 Sorted == CHOOSE s \in Perms : \A i \in 1..(Cardinality(Owners) - 1) : s[i] < s[i + 1]
-Orders == IF Design = "hashset" THEN Perms ELSE {Sorted}
+SD == 10                         \* the source date (an instant)
+Zones == {0, 2, -8}              \* offsets in which the caller may spell it
+LateMtimes == {11, 15}           \* an input file newer than the source date
+Least(a, b) == IF a < b THEN a ELSE b
+Output(handover, hashorder, zone, late) ==
+    [owners |-> IF Design = "hashset" THEN hashorder ELSE Sorted,
+     dirs   |-> IF Design = "insertion" THEN handover ELSE Sorted,
+     time   |-> IF Design = "localtime" THEN SD + zone ELSE SD,
+     mtime  |-> IF Design = "rawmtime" THEN late ELSE Least(late, SD)]
 Init == DetInit({"cfg"}) /\ run = 0 /\ last = <<>>
 Next == /\ run < 3 /\ run' = run + 1
-        /\ \E o \in Orders : last' = o /\ emitted' = [emitted EXCEPT !["cfg"] = o]
+        /\ \E h \in Perms, o \in Perms, z \in Zones, m \in LateMtimes :
+              LET out == Output(h, o, z, m) IN last' = out /\ emitted' = [emitted EXCEPT !["cfg"] = out]
 Spec == Init /\ [][Next]_<<emitted, run, last>>
-\* the action property ObserveRun demands, as a state invariant over consecutive runs
-Deterministic == run >= 2 => TRUE
+\* every run of the configuration produces the same output
 DetAction == [][run >= 1 => emitted["cfg"] = emitted'["cfg"]]_<<emitted, run, last>>
+\* no timestamp in the output is later than the source date
+ClampInv == run >= 1 => (emitted["cfg"].time <= SD /\ emitted["cfg"].mtime <= SD)
 =============================================================================
